@@ -87,6 +87,15 @@ structure Endpoint where
   listenUni : List Nat := []
   /-- ghost: every stream handed to the application by `accept_bi` / `accept_uni` -/
   offered : List Nat := []
+  /-- `ArcParameters`: the peer's transport parameters were handed over (`recv_remote_params`) -/
+  gotParams : Bool := true
+  /-- … and the peer's source connection id is known (`initial_scid_from_peer_need_equal`) -/
+  gotScid : Bool := true
+  /-- `Parameters::is_remote_params_ready` (= both, authenticated): until then `get_remote` is `None`,
+  `poll_ready` is `Pending` -/
+  ready : Bool := true
+  /-- the peer's `initial_max_streams_{bidi,uni}`, applied by `revise_params(false, …)` when ready -/
+  peerLim : Per := ⟨0, 0⟩
 
 def lookup (l : List (Nat × RecvHalf)) (s : Nat) : Option RecvHalf := (l.find? (·.1 == s)).map (·.2)
 def remove (l : List (Nat × RecvHalf)) (s : Nat) : List (Nat × RecvHalf) := l.filter (·.1 != s)
@@ -100,6 +109,10 @@ inductive EOp
   | maxStreams (d : Dir) (v : Nat)
   | streamsBlocked (d : Dir) (v : Nat)
   | drain        -- the application accepts everything the listener holds
+  | acceptBi     -- one poll of `accept_bi(&params)`
+  | acceptUni    -- one poll of `accept_uni()`
+  | rparams      -- `Parameters::recv_remote_params(peer parameters)`
+  | rscid        -- `Parameters::initial_scid_from_peer_need_equal(cid)`
 deriving Repr
 
 inductive EObs
@@ -109,6 +122,9 @@ inductive EObs
   | ok (n : Nat) (ms : List (Dir × Nat))     -- `Ok(n)` + MAX_STREAMS frames emitted
   | err (k : ErrKind)
   | offered (bi uni : List Nat)
+  | accepted (s : Option Nat)     -- `Poll::Ready(Ok((sid, ..)))` / `Poll::Pending`
+  | pendingParams                 -- `open_*` waiting for the peer's parameters: nothing allocated, no frame
+  | params (ready : Bool)
   | panic
 deriving Repr, DecidableEq
 
@@ -179,8 +195,37 @@ def Endpoint.deliver (e : Endpoint) (ms : List (Dir × Nat)) (k : FrameKind) (s 
         if p then (e2, .panic) else (e2, .ok n (ms ++ ms2))
   | _ => (e, .ok 0 ms)
 
+/-- The connection's reaction to "remote parameters ready": `DataStreams::revise_params(false, peer)`. -/
+def Endpoint.becomeReady (e : Endpoint) : Endpoint × EObs :=
+  if e.gotParams && e.gotScid && !e.ready then
+    let (l', o) := e.loc.step (.revise false e.peerLim.bi e.peerLim.uni)
+    if o = .panic then ({ e with loc := l', ready := true }, .panic)
+    else ({ e with loc := l', ready := true }, .params true)
+  else (e, .params e.ready)
+
 def Endpoint.step (e : Endpoint) : EOp → Endpoint × EObs
+  | .acceptBi =>
+    -- `Listener::poll_accept_bi_stream`: the send window comes from the peer's parameters, so they are
+    -- looked up FIRST (`ready!(params.poll_ready(cx))`); only then is the queue popped
+    if !e.ready then (e, .accepted none)
+    else
+      match e.listenBi with
+      | [] => (e, .accepted none)
+      | s :: t => ({ e with listenBi := t, offered := e.offered ++ [s] }, .accepted (some s))
+  | .acceptUni =>
+    match e.listenUni with
+    | [] => (e, .accepted none)
+    | s :: t => ({ e with listenUni := t, offered := e.offered ++ [s] }, .accepted (some s))
+  | .rparams =>
+    if e.gotParams then (e, .panic)          -- `assert!(self.client.is_empty())`
+    else { e with gotParams := true }.becomeReady
+  | .rscid =>
+    if e.gotScid then (e, .panic)            -- `assert!(initial_scid.replace(cid).is_none())`
+    else { e with gotScid := true }.becomeReady
   | .open_ d =>
+    -- `poll_open_{bi,uni}_stream`: no remembered parameters and `get_remote` = `None` ⇒
+    -- `ready!(params.poll_ready(cx))` before anything is allocated
+    if !e.ready then (e, .pendingParams) else
     let (l', o) := e.loc.step (.alloc d)
     match o with
     | .sid s =>
@@ -216,8 +261,11 @@ def Endpoint.step (e : Endpoint) : EOp → Endpoint × EObs
     | .done f => ({ e with rem := r' }, .ok 0 (f.map fun m => (d, m)).toList)
     | _ => ({ e with rem := r' }, .panic)
   | .drain =>
-    ({ e with listenBi := [], listenUni := [], offered := e.offered ++ e.listenBi ++ e.listenUni },
-     .offered e.listenBi e.listenUni)
+    -- `accept_bi` until Pending (nothing while the parameters are not ready), then `accept_uni` until Pending
+    let bi := if e.ready then e.listenBi else []
+    ({ e with listenBi := if e.ready then [] else e.listenBi, listenUni := [],
+              offered := e.offered ++ bi ++ e.listenUni },
+     .offered bi e.listenUni)
 
 def Endpoint.run (e : Endpoint) (ops : List EOp) : Endpoint := ops.foldl (fun e op => (e.step op).1) e
 
@@ -233,5 +281,15 @@ def Endpoint.new (role : Role) (localBi localUni peerBi peerUni : Nat) (win : Wi
     | _ =>
       some { role := role, loc := (l0.step (.revise false peerBi peerUni)).1,
              rem := Remote.new role.peer localBi localUni k, win := win }
+
+/-- `DataStreams::new` with the peer's parameters NOT yet received (a server always; a client without
+remembered parameters): `revise_params` happens when they become ready (`Endpoint.becomeReady`). -/
+def Endpoint.newLate (role : Role) (localBi localUni peerBi peerUni : Nat) (win : Windows) (k : CtrlSt) :
+    Option Endpoint :=
+  match Local.new role 0 0 with
+  | none => none
+  | some l0 =>
+    some { role := role, loc := l0, rem := Remote.new role.peer localBi localUni k, win := win,
+           gotParams := false, gotScid := false, ready := false, peerLim := ⟨peerBi, peerUni⟩ }
 
 end GmQuic.StreamRules
